@@ -171,7 +171,7 @@ def _victim_remoter(w, victim):
             for table in (w.server.ixes, getattr(w.server, "cxes", {})):
                 for ca, r in table.items():
                     raw = getattr(r.cs, "raw", r.cs) if r.cs is not None else None
-                    if raw is s or ca == s.peername:
+                    if raw is s or (raw is None and ca == s.peername):   # not a later connection from the same address
                         return r
     return None
 
